@@ -1055,3 +1055,76 @@ def c11(ctx):
     ctx.assumptions += ['the extractor\'s freshness classification is syntactic (object created in the same function / closure parameter of modify / private array)',
                         'Go memory model not modelled; the race detector supports the validation']
     return finish(ctx, 'proof', ob, dis, details, rule)
+
+
+# ---------------------------------------------------------------- C04: errors up front, nothing panics
+
+def probes_run(ctx):
+    tag = os.path.join(ctx.dir, 'probes.txt')
+    if os.path.exists(tag):
+        return open(tag).read().split('\n')
+    hb, log = vcheck.build_harness(ctx)
+    if hb is None:
+        ctx.violations.append(('harness does not build', write_replay(ctx, 'harness_build.txt', log[-6000:]), False))
+        return None
+    import subprocess
+    p = subprocess.run([hb, 'probes'], stdout=subprocess.PIPE, stderr=subprocess.PIPE, text=True, timeout=600)
+    open(tag, 'w').write(p.stdout)
+    return p.stdout.split('\n')
+
+
+@prop('C04')
+def c04(ctx):
+    rule = ('(1) 46 API-misuse probes (nil/ill-typed Bind, SetCallback, Run, Condense, Curry, SaveTo, MakeStructBuilder arguments, nil entries, '
+            'wrapper/literal last, func pointers, anonymous func parameters, conflicting annotations, variadics, channels/maps) each under '
+            'recover + watchdog; (2) malformed chains from a perturbing generator (unsatisfiable inputs, unconsumed returns, wrapper/literal '
+            'last, Reorder/Cluster/ConsumptionOptional/named-edit mixes): Bind must return (error or ok), never panic/hang, and on error leave '
+            'the function variables nil; the model bindModel must predict the same verdict class; (3) every successful bind of every '
+            'generated chain is invoked with scripted bodies: no panic, no invalid argument (model event `bad`); non-trivial = a case that '
+            'does not bind or a probe; distinct = provider lists / probe names')
+    ob, dis, details = proof_obligations(ctx, 'C04')
+    st = collections.Counter(); distinct = set()
+    for l in probes_run(ctx) or []:
+        if not l.startswith('probe '):
+            continue
+        name = l.split('"')[1]; verdict = l.split('"')[2].strip()
+        st['probe-' + verdict.split(':')[0].split()[0]] += 1
+        distinct.add('probe ' + name)
+        if verdict.startswith(('panic', 'hang')):
+            ctx.violations.append(('API misuse probe %s: %s' % (name, verdict[:160]), write_replay(ctx, 'probe.txt', l), True))
+        elif len(ctx.samples) < 3:
+            ctx.samples.append(l)
+    total = []
+    for mode, n, prof in (('malformed', 2000 if ctx.tier == 'quick' else 20000, 'default'), ('run', None, 'default'), ('edit', 1000 if ctx.tier == 'quick' else 10000, 'default')):
+        cs = load_cases(ctx, mode, n, prof)
+        if cs is not None:
+            total += [(mode, c) for c in cs]
+    for mode, c in total:
+        b = c.bind.split()
+        cls = ' '.join(b[1:3]) if len(b) > 2 and b[1] == 'err' else b[1] if len(b) > 1 else 'none'
+        st[mode + '-bind-' + cls.split(':')[0]] += 1
+        if b[1].startswith(('panic', 'hang')):
+            ctx.violations.append(('Bind %s (case %s %s)' % (' '.join(b[1:])[:160], mode, c.key), write_replay(ctx, 'case_%s_%s.txt' % (mode, c.key), c.text()), True))
+        if any(l.startswith('t partialbind') for l in c.lines):
+            ctx.violations.append(('Bind returned an error but set a function variable (case %s %s)' % (mode, c.key), write_replay(ctx, 'case_%s_%s.txt' % (mode, c.key), c.text()), True))
+        for l in c.t:
+            if l.startswith(('panic', 'hang')):
+                ctx.violations.append(('init/invoke of a bound chain: %s (case %s %s)' % (l[:160], mode, c.key), write_replay(ctx, 'case_%s_%s.txt' % (mode, c.key), c.text()), True))
+                break
+        if any(l.startswith(('x bad', 's bad')) for l in c.mlines):
+            ctx.violations.append(('the model hands a provider an invalid argument on the implementation\'s own compiled chain (case %s %s)' % (mode, c.key),
+                                   write_replay(ctx, 'case_%s_%s.txt' % (mode, c.key), c.text()), True))
+        if not c.ok:
+            distinct.add(c.shape_key())
+    # verdict correspondence of the model on malformed chains (not Reorder: reorder.go is not modelled)
+    mal = [c for mode, c in total if mode == 'malformed']
+    stage_stats(ctx, mal, s5_compare, 'S5malformed')
+    ctx.cov['evaluations'] = sum(st.values())
+    ctx.cov['programs'] = len(total)
+    ctx.cov['distinct_nontrivial'] = len(distinct)
+    ctx.cov['traces_validated_against_impl'] = sum(1 for _, c in total if c.ok)
+    ctx.cov['outcomes'] = dict(st)
+    ctx.assumptions += ['a user-supplied provider that itself panics is outside the property', 'reflect-level panics on shapes the harness universe does not contain are only reached by the probes']
+    if len(ctx.violations) > 5:
+        ctx.violations.sort(key=lambda v: not v[2]); ctx.violations = ctx.violations[:5]
+    return finish(ctx, 'proof', ob, dis, details, rule)
